@@ -988,7 +988,7 @@ def run(ctx):
     n_cases = (40000 if thorough else 1500) * ctx.scale
     n_dict = (40000 if thorough else 3000) * ctx.scale
 
-    cases = directed_cases() if ctx.scale == 1 else []
+    cases = directed_cases() if ctx.scale < 10 else []      # cheap: also on the scale-3 pass of a drifted tree
     ctx.stats["directed_cases"] = len(cases)
     for i in range(n_cases):
         cases.append(gen_case(rng, malformed=(rng.random() < 0.3), big=(thorough and i % 10 == 0)))
